@@ -172,19 +172,25 @@ def reference(ctx):
         ol = [e for e in tr.stores("oracle_data_length_required")]
         ok = len(ol) == 1 and ol[0].value == ln and q.has_guard(ol[0], T.mk_cmp("==", A("oracle_data_length_required"), T.NONE))
         ctx.ob("FRM", S_, "number of labels required defaults to N", ok, "")
-        for key, fn, src in (("md", "numpy.mean", "margin_densities"), ("md_std", "numpy.std", "margin_densities"), ("acc", "numpy.mean", "accuracies"), ("acc_std", "numpy.std", "accuracies")):
+        lists = {}
+        for key, fn in (("md", "numpy.mean"), ("md_std", "numpy.std"), ("acc", "numpy.mean"), ("acc_std", "numpy.std")):
             v = q.sub(rdv, const(key)).single_atom()
-            ok = v is not None and v[0] == "call" and v[1] == fn and (v[2][0].single_atom() or ("", "", ""))[0] == "loopvar" and v[2][0].single_atom()[2] == "$" + src
-            ctx.ob("FRM", "MD3.calculate_distribution_statistics", "%s = %s over the folds' %s" % (key, fn.split(".")[1], src.replace("_", " ")), ok, "")
+            ok = v is not None and v[0] == "call" and v[1] == fn and (v[2][0].single_atom() or ("", "", ""))[0] == "loopvar"
+            if ok:
+                lists[key] = v[2][0].single_atom()[2]
+            ctx.ob("FRM", "MD3.calculate_distribution_statistics", "%s = %s over the folds" % (key, fn.split(".")[1]), ok, "")
+        ok = len(lists) == 4 and lists["md"] == lists["md_std"] and lists["acc"] == lists["acc_std"] and lists["md"] != lists["acc"]
+        ctx.ob("FRM", "MD3.calculate_distribution_statistics", "mean and deviation of the margin density come from one per-fold list, those of the accuracy from another", ok, str(lists))
     kf = [e for e in tr.calls() if e.callee == ("lib", "sklearn.model_selection.KFold")]
     ok = len(kf) == 1 and dict(kf[0].kwargs).get("n_splits") == A("k") and dict(kf[0].kwargs).get("shuffle") == T.TRUE and dict(kf[0].kwargs).get("random_state") is not None and T.is_pure_const(dict(kf[0].kwargs)["random_state"])
     ctx.ob("FRM", "MD3.calculate_distribution_statistics", "k folds with a fixed shuffle seed", ok, "")
-    aps = [e for e in tr.of("localmut") if e.how == "method:append" and e.name in ("margin_densities", "accuracies")]
+    fold_lists = {v[1:] for v in (lists.values() if rdv is not None else [])}
+    aps = [e for e in tr.of("localmut") if e.how == "method:append" and e.name in fold_lists]
     ctx.ob("MC", "MD3.calculate_distribution_statistics", "one margin density and one accuracy per fold", len(aps) == 2, "")
     for e in aps:
-        if e.name == "margin_densities":
+        if rdv is not None and e.name == lists.get("md", "$")[1:]:
             v = e.value.single_atom()[1][0]
-            sig = [a for a in T.atoms_of(v, "loopvar") if a[2] == "$signal_func_values"]
+            sig = [a for a in T.atoms_of(v, "loopvar") if a[2].startswith("$")]
             ok = len(set(sig)) == 1 and T.same(v, atom(("call", "sum", (atom(sig[0]),), ())) / atom(("call", "len", (atom(sig[0]),), ()))) if sig else False
             ctx.ob("FRM", "MD3.calculate_distribution_statistics", "margin density of a fold = mean of its samples' signals", ok, q.short(v, 100), e)
     tm = ctx.trace("MD3", "calculate_margin_inclusion_signal")
